@@ -27,7 +27,17 @@ def client(pid, what, ref):
              'with only this property\'s guards enforced; a rejection is re-executed before it is reported.',
         ref=ref, note=SERVER_NOTE.replace('Handlers are assumed to return when the harness releases them.', 'The peer is assumed to close its end after the client closes (as the property states).'))
 
+TABLE_NOTE = ('Trusted base: TLC evaluation of the reference module, the concretisation (abstract class -> byte strings / Go values) and abstraction code of the named harness package '
+              '(deliberately dumb: string templates, encoding/json generic decode, byte equality). Exhaustive over the abstract product stated in the evidence; concrete values within a class are sampled (VERIF_SEED).')
+def table(pid, module, pkg, what, ref):
+    return dict(
+        technique='TLA+ reference function (spec/%s.tla) evaluated by TLC over the complete product of abstract input classes and exported as a table; every cell concretised and replayed into the real code (harness/%s); outcomes outside the allowed set are violations' % (module, pkg),
+        category='model_checking', text=what, ref=ref, note=TABLE_NOTE)
+
 CHECKS = {
+ 'C02': table('C02', 'Wire', 'wirefam', 'JSON-RPC conformance and survival on arbitrary inbound records: the verdict function of spec/Wire.tla (a transcription of the property statement, not of the Go code) is evaluated by TLC over all 15400 combinations of per-field variants; each cell is sent as a single object, inside arrays and in random batches to a real Server (AllowPush off and on) inside a synctest bubble; handler invocations and output records at quiescence are compared with the allowed outcome set, outputs are validated by an independent JSON-RPC response validator, and a liveness probe follows. Seeded mutations beyond the bound use the survival / valid-output oracle.', 'DESIGN.md §4 C02'),
+ 'C11': table('C11', 'Framing', 'framefam', 'Framing round trip under any fragmentation: record class sequences (legality per framing from the spec) are sent with the real Send and received through a chunk-controlled reader under all cut sets (short streams), 1-byte reads, boundary cuts, random cuts and data-together-with-EOF; Recv must return exactly the records and then io.EOF; a record containing the split byte must be refused with nothing written.', 'DESIGN.md §4 C11'),
+ 'C12': table('C12', 'Framing', 'framefam', 'Framing robustness: the symbol-level reference decoders of spec/Framing.tla (Split and the Header family under strict / optional / empty mime type) are evaluated by TLC over every token stream up to the bound; each stream is decoded by the real Recv under many fragmentations and the outcome sequence (records byte for byte, errors, keeps-failing-after-exhaustion) compared; absurd Content-Length values and seeded byte mutations are checked for no-crash / no-short-record / no-fabrication.', 'DESIGN.md §4 C12'),
  'C01': server('C01', 'Exactly one correlated response per call, none per notification, batch shape/order, nothing for nothing-to-report.', 'DESIGN.md §4 C01'),
  'C03': server('C03', 'Notification barrier and its converse (running calls do not hold back later requests).', 'DESIGN.md §4 C03'),
  'C06': server('C06', 'Concurrency limit, work conservation at every quiescent point, cancelled waiters never run.', 'DESIGN.md §4 C06'),
